@@ -212,10 +212,13 @@ Definition run (c : cfg) (evs : list ev) : st := fold_left (step_st c) evs init.
      ignores them);
      dyn: bit 0: 0 = timeout_duration(T), 1 = timeout_fn(request i -> t_i); bit 1: the time
      unit of the script is the microsecond (timer ticks every 1000 units) instead of the
-     millisecond; callers 0..n-1
+     millisecond (bit 2, harness only: every call on a service value of its own that is dropped
+     right after call()); callers 0..n-1
      op 1 = Poll a, 2 = Drop a, 3 = Advance a, 6 = Advance a (the harness moves the clock in one
         step instead of millisecond by millisecond),
-        4 = Complete a b (b: 0 ok 1 err 2 panic), 5 = Call a; events on callers >= n are skipped
+        4 = Complete a b (b: 0 ok 1 err 2 panic), 5 = Call a; events on callers >= n are skipped;
+        7 = the harness polls the service ready for caller a now, ahead of call(): no event here
+        (poll_ready only forwards to the inner service) and no trace entry
    trace = per event [r; val; wake mask; inner-call states (base 4, digit j = caller j:
            0 none 1 running 2 finished 3 dropped)] *)
 Definition outcome_of (z : Z) : outcome :=
